@@ -70,7 +70,7 @@ func (d Decimal) Ceil(dp int) Decimal {
 			return zero(d.Signbit())
 		}
 
-		return compose(false, uint128{1, 0}, int16(dp))
+		return composeQuantised(false, uint128{1, 0}, dp)
 	}
 
 	var trunc int8
@@ -112,11 +112,7 @@ func (d Decimal) Ceil(dp int) Decimal {
 		}
 	}
 
-	if exp > maxBiasedExponent {
-		return inf(neg)
-	}
-
-	return compose(neg, sig, exp)
+	return composeQuantised(neg, sig, int(exp))
 }
 
 // Floor returns the greatest Decimal value less than or equal to d that has no
@@ -151,7 +147,7 @@ func (d Decimal) Floor(dp int) Decimal {
 			return zero(d.Signbit())
 		}
 
-		return compose(true, uint128{1, 0}, int16(dp))
+		return composeQuantised(true, uint128{1, 0}, dp)
 	}
 
 	var trunc int8
@@ -193,11 +189,7 @@ func (d Decimal) Floor(dp int) Decimal {
 		}
 	}
 
-	if exp > maxBiasedExponent {
-		return inf(neg)
-	}
-
-	return compose(neg, sig, exp)
+	return composeQuantised(neg, sig, int(exp))
 }
 
 // Round rounds (or quantises) a Decimal value to the specified number of
@@ -252,11 +244,28 @@ func (d Decimal) Round(dp int, mode RoundingMode) Decimal {
 	neg := d.Signbit()
 	sig, exp = mode.round(false, neg, sig, int16(iexp), trunc, digit)
 
-	if exp > maxBiasedExponent {
-		return inf(neg)
+	return composeQuantised(neg, sig, int(exp))
+}
+
+// composeQuantised composes sig × 10^exp (exp biased) where exp may lie above
+// the largest exponent, which happens when the quantum is above 10^6111: the
+// excess is moved into the significand while it fits.
+func composeQuantised(neg bool, sig uint128, exp int) Decimal {
+	if sig[0]|sig[1] == 0 {
+		return zero(neg)
 	}
 
-	return compose(neg, sig, exp)
+	for exp > maxBiasedExponent {
+		sig = sig.mul64(10)
+
+		if sig[1] > 0x0002_7fff_ffff_ffff {
+			return inf(neg)
+		}
+
+		exp--
+	}
+
+	return compose(neg, sig, int16(exp))
 }
 
 // RoundingMode determines how a Decimal value is rounded when the result of an
